@@ -6,7 +6,14 @@ From Coq Require Import ZArith List Bool Lia ZifyBool.
 From AV Require Import Base.PyList Tok.Model Tok.OnlineSpec.
 Import ListNotations. Open Scope Z_scope.
 
-Ltac zl := rewrite ?zlen_app, ?zlen_cons, ?zlen_nil in *.
+(* [rewrite zlen_nil] may unify [zlen []] with a literal [0] up to conversion
+   and fail; match it syntactically instead. *)
+Ltac zl_nil :=
+  repeat match goal with
+  | |- context [zlen (@nil ?T)] => change (zlen (@nil T)) with 0
+  | H : context [zlen (@nil ?T)] |- _ => change (zlen (@nil T)) with 0 in H
+  end.
+Ltac zl := rewrite ?zlen_app, ?zlen_cons in *; zl_nil.
 
 (* ------------------------------------------------------------------ *)
 (** * Structure of [run], [feed], [feed_idx] *)
@@ -207,11 +214,364 @@ Proof.
   destruct s as [sta d cg ic sl sr cu].
   unfold linv in Hinv; fields. destruct Hinv as (Hcur & Hlen & Hst).
   unfold process in Hp; setters.
+  pose proof (zlen_nonneg d) as Hd0.
   destruct sta, v; repeat split_if_in Hp;
   try (rewrite eod_true in Hp by (fields; zl; lia); setters).
-  all: try (inversion Hp; subst; clear Hp; unfold linv, lat1, tok_len, tok_end, tok_data; fields; cbn [fst snd]; zl;
-    (split; [try (repeat split; (lia || reflexivity)) | intros t Ht; inversion Ht; subst; cbn [fst snd]; zl; try lia])).
-  Show.
-Admitted.
+  all: try (rewrite eod_false in Hp;
+    match type of Hp with context [emits c ?s] =>
+      pose proof (zlen_trim c s) as Htrim; destruct (emits c s) eqn:Eem
+    end; setters;
+    (assert (Hside : sl <= zlen d) by lia); specialize (Htrim Hside);
+    destruct (drop c && (0 <? sl)) eqn:Ed).
+  all: inversion Hp; subst; clear Hp; unfold linv, lat1, tok_len, tok_end, tok_data; fields; cbn [fst snd]; zl;
+    (split; [try (repeat split; (lia || reflexivity)) | intros t Ht; inversion Ht; subst; cbn [fst snd]; zl; try lia]).
+Qed.
+
+Lemma linv_reinit : forall s_old : st A, linv 0 (reinit s_old).
+Proof.
+  intros s_old. destruct Hacc as (Hmx & _).
+  unfold linv, reinit; fields; zl. split; [lia|split; [lia|reflexivity]].
+Qed.
+
+Lemma feed_idx_lat : forall (fs : list (A * bool)) k (s : st A) n,
+  linv k s -> k + zlen fs = n ->
+  linv n (fst (feed_idx c s k fs))
+  /\ Forall (latency_ok c n) (snd (feed_idx c s k fs)).
+Proof.
+  induction fs as [|[f v] rest IH]; intros k s n Hinv Hn.
+  - cbn [feed_idx fst snd]. zl. replace n with k by lia. split; [assumption|constructor].
+  - cbn [feed_idx]. unfold iter_step.
+    destruct (process c (set_cur s (cur s + 1)) f v) as [s1 o] eqn:Hp.
+    destruct (process_linv k s s1 f v o Hinv Hp) as [Hinv1 Hlat].
+    zl. pose proof (zlen_nonneg rest) as Hr.
+    destruct (IH (k + 1) s1 n Hinv1 ltac:(lia)) as [IH1 IH2].
+    destruct (feed_idx c s1 (k + 1) rest) as [s2 outs]. cbn [fst snd] in *.
+    split; [assumption|].
+    apply Forall_app; split; [|assumption].
+    destruct o as [t|]; cbn [opt_list map]; constructor; [|constructor].
+    specialize (Hlat t eq_refl). unfold lat1 in Hlat. unfold latency_ok. lia.
+Qed.
 
 End Latency.
+
+Theorem C08_latency : forall (A : Type) (c : config) (s_old : st A) (fs : list (A * bool)),
+  accepted c -> Forall (latency_ok c (zlen fs)) (run_idx c (reinit s_old) fs).
+Proof.
+  intros A c s_old fs Hacc. unfold run_idx.
+  destruct (feed_idx_lat c Hacc fs 0 (reinit s_old) (zlen fs) (linv_reinit c Hacc s_old) ltac:(lia))
+    as [_ Hlat].
+  destruct (feed_idx c (reinit s_old) 0 fs) as [s1 outs]. cbn [snd] in Hlat.
+  destruct (iter_step c s1 None) as [[s2 fl] b].
+  apply Forall_app; split; [assumption|].
+  apply Forall_forall. intros [t r] Hin.
+  apply in_map_iff in Hin. destruct Hin as (t0 & Heq & _). inversion Heq; subst.
+  unfold latency_ok. right; right; reflexivity.
+Qed.
+
+(* ------------------------------------------------------------------ *)
+(** * Prefix law *)
+
+Section Prefix.
+Context {A : Type}.
+Variable c : config.
+Hypothesis Hacc : accepted c.
+
+Ltac fields := cbn [state data contig init_count sil start cur] in *.
+Ltac setters := unfold set_state, set_data, set_contig, set_init_count, set_sil,
+                 set_start, set_cur in *; fields.
+Ltac split_if_in H :=
+  match type of H with context [if ?b then _ else _] => destruct b eqn:? end.
+
+(** [pre] (the token flushed at the cut point), its start and the
+    continuation flag at that moment. *)
+Variable pre : list A.
+Variable st0 : Z.
+Variable cg0 : bool.
+Hypothesis Hpre : 0 < zlen pre.
+Hypothesis Hemit :
+  min_length c <= zlen pre \/ (strict c = false /\ cg0 = true).
+
+(** The buffer extends [pre]; in drop mode the tolerated trailing silence
+    lies entirely in the extension. *)
+Definition ext_inv (s : st A) : Prop :=
+  start s = st0 /\ contig s = cg0 /\ sil s < zlen (data s) /\
+  exists ext, data s = pre ++ ext /\ (drop c = true -> sil s <= zlen ext).
+
+Definition good_tok (t : token A) : Prop :=
+  tok_start t = st0 /\ exists suf, tok_data t = pre ++ suf.
+
+Lemma eod_true_ext : forall s : st A,
+  ext_inv s -> max_length c <= zlen (data s) ->
+  exists s' t, eod c s true = (s', Some t) /\ good_tok t.
+Proof.
+  intros s (Hst & _ & _ & ext & Hd & _) Hmax.
+  destruct Hacc as (_ & Hmn & _).
+  rewrite eod_true by lia.
+  eexists; eexists; split; [reflexivity|].
+  unfold good_tok, tok_start, tok_data; cbn [fst snd].
+  split; [assumption|]. exists ext; assumption.
+Qed.
+
+Lemma trim_ext : forall s : st A,
+  ext_inv s -> exists suf, trim c s = pre ++ suf.
+Proof.
+  intros s (_ & _ & Hsil & ext & Hd & Hdrop).
+  destruct (drop c && (0 <? sil s)) eqn:E.
+  - rewrite trim_drop by (assumption || lia).
+    rewrite Hd, firstn_app.
+    exists (firstn (Z.to_nat (zlen (pre ++ ext) - sil s) - length pre) ext).
+    f_equal. apply firstn_all2.
+    assert (sil s <= zlen ext) by (apply Hdrop; lia).
+    zl. unfold zlen in *. lia.
+  - rewrite trim_nodrop by assumption. exists ext; assumption.
+Qed.
+
+Lemma eod_false_ext : forall s : st A,
+  ext_inv s ->
+  exists s' t, eod c s false = (s', Some t) /\ good_tok t.
+Proof.
+  intros s Hinv. destruct (trim_ext s Hinv) as [suf Htr].
+  destruct Hinv as (Hst & Hcg & _).
+  rewrite eod_false.
+  assert (Hem : emits c s = true).
+  { unfold emits. rewrite Htr, Hcg. zl. pose proof (zlen_nonneg suf).
+    destruct Hemit as [H1|[H1 H2]]; rewrite ?H1, ?H2; cbn [negb]; lia. }
+  rewrite Hem. eexists; eexists; split; [reflexivity|].
+  unfold good_tok, tok_start, tok_data; cbn [fst snd].
+  split; [assumption|]. exists suf; assumption.
+Qed.
+
+Definition live (s : st A) : Prop := state s = NOISE \/ state s = POSSIBLE_SILENCE.
+
+Lemma ext_inv_same : forall s s1 : st A,
+  ext_inv s -> start s1 = start s -> contig s1 = contig s ->
+  data s1 = data s -> sil s1 = sil s -> ext_inv s1.
+Proof.
+  intros s s1 Hinv H1 H2 H3 H4. unfold ext_inv in *.
+  rewrite H1, H2, H3, H4. assumption.
+Qed.
+
+Lemma ext_inv_grow : forall (s s1 : st A) f,
+  ext_inv s -> start s1 = start s -> contig s1 = contig s ->
+  data s1 = data s ++ [f] -> sil s1 <= sil s + 1 \/ sil s1 <= 1 -> ext_inv s1.
+Proof.
+  intros s s1 f (Hst & Hcg & Hsil & ext & Hd & Hdrop) H1 H2 H3 H4.
+  unfold ext_inv. rewrite H1, H2, H3. zl.
+  pose proof (zlen_nonneg ext) as Hext.
+  assert (Hlen : zlen (data s) = zlen pre + zlen ext) by (rewrite Hd; now zl).
+  split; [assumption|]. split; [assumption|]. split; [lia|].
+  exists (ext ++ [f]). split; [rewrite Hd; now rewrite app_assoc|].
+  intros Hdr. specialize (Hdrop Hdr). zl. lia.
+Qed.
+
+Lemma process_ext : forall (s s' : st A) f v o,
+  live s -> ext_inv s ->
+  process c (set_cur s (cur s + 1)) f v = (s', o) ->
+  match o with
+  | Some t => good_tok t
+  | None => live s' /\ ext_inv s'
+  end.
+Proof.
+  intros s s' f v o Hlive Hinv Hp.
+  assert (Hsil : sil s < zlen (data s)) by (destruct Hinv as (_ & _ & H & _); exact H).
+  unfold process in Hp; setters.
+  destruct Hlive as [Hs|Hs]; rewrite Hs in Hp; destruct v; repeat split_if_in Hp;
+  lazymatch type of Hp with
+  | eod c ?X true = _ =>
+      let s2 := fresh "s2" in let t := fresh "t" in
+      let Heq := fresh "Heq" in let Hg := fresh "Hg" in
+      destruct (eod_true_ext X) as (s2 & t & Heq & Hg);
+      [ eapply ext_inv_grow with (s := s); [exact Hinv | fields; try reflexivity; lia ..]
+      | fields; lia
+      | rewrite Heq in Hp; inversion Hp; subst; exact Hg ]
+  | eod c ?X false = _ =>
+      let s2 := fresh "s2" in let t := fresh "t" in
+      let Heq := fresh "Heq" in let Hg := fresh "Hg" in
+      destruct (eod_false_ext X) as (s2 & t & Heq & Hg);
+      [ eapply ext_inv_same with (s := s); [exact Hinv | fields; reflexivity ..]
+      | rewrite Heq in Hp; inversion Hp; subst; exact Hg ]
+  | _ => idtac
+  end.
+  all: inversion Hp; subst; clear Hp; try lia.
+  all: split; [unfold live; fields; auto
+              | eapply ext_inv_grow with (s := s); [exact Hinv | fields; try reflexivity; lia ..]].
+Qed.
+
+Lemma ext_inv_pos : forall s : st A, ext_inv s -> 0 < zlen (data s).
+Proof.
+  intros s (_ & _ & _ & ext & Hd & _). rewrite Hd; zl.
+  pose proof (zlen_nonneg ext). lia.
+Qed.
+
+Lemma run_ext : forall (q : list (A * bool)) (s : st A),
+  live s -> ext_inv s ->
+  exists t rest', snd (run c s q) = t :: rest' /\ good_tok t.
+Proof.
+  induction q as [|[f v] rest IH]; intros s Hlive Hinv.
+  - cbn [run]. unfold iter_step.
+    destruct (post_process c (set_cur s (cur s + 1))) as [s1 o] eqn:Hp.
+    unfold post_process in Hp; setters.
+    pose proof (ext_inv_pos s Hinv) as Hpos.
+    assert (Hsil : sil s < zlen (data s)) by (destruct Hinv as (_ & _ & H & _); exact H).
+    assert (Hc : (0 <? zlen (data s)) && (sil s <? zlen (data s)) = true) by lia.
+    rewrite Hc in Hp.
+    assert (He : eod c (mkSt (state s) (data s) (contig s) (init_count s) (sil s)
+                             (start s) (cur s + 1)) false = (s1, o)).
+    { destruct Hlive as [Hs|Hs]; rewrite Hs in Hp; rewrite Hs; exact Hp. }
+    match type of He with eod c ?X false = _ =>
+      destruct (eod_false_ext X) as (s2 & t & Heq & Hg);
+      [eapply ext_inv_same with (s := s); [exact Hinv | fields; reflexivity ..]|]
+    end.
+    rewrite Heq in He; inversion He; subst.
+    exists t, []. split; [reflexivity|assumption].
+  - cbn [run]. unfold iter_step.
+    destruct (process c (set_cur s (cur s + 1)) f v) as [s1 o] eqn:Hp.
+    pose proof (process_ext s s1 f v o Hlive Hinv Hp) as Hstep.
+    destruct o as [t|].
+    + destruct (run c s1 rest) as [s2 outs]. cbn [snd opt_list app].
+      exists t, outs. split; [reflexivity|assumption].
+    + destruct Hstep as [Hlive1 Hinv1].
+      destruct (IH s1 Hlive1 Hinv1) as (t & rest' & Hrun & Hg).
+      destruct (run c s1 rest) as [s2 outs]. cbn [snd opt_list app] in *.
+      exists t, rest'. split; assumption.
+Qed.
+
+End Prefix.
+
+Section PrefixMain.
+Context {A : Type}.
+Variable c : config.
+Hypothesis Hacc : accepted c.
+
+Ltac fields := cbn [state data contig init_count sil start cur] in *.
+Ltac setters := unfold set_state, set_data, set_contig, set_init_count, set_sil,
+                 set_start, set_cur in *; fields.
+
+(** What a successful flush tells about the state at the cut point. *)
+Lemma post_process_some : forall (s s' : st A) t',
+  post_process c (set_cur s (cur s + 1)) = (s', Some t') ->
+  live s /\ tok_start t' = start s /\ 0 < zlen (tok_data t')
+  /\ (min_length c <= zlen (tok_data t') \/ (strict c = false /\ contig s = true))
+  /\ ext_inv c (tok_data t') (start s) (contig s) s.
+Proof.
+  intros s s' t' Hp.
+  destruct Hacc as (_ & Hmn & _).
+  unfold post_process in Hp; setters.
+  assert (Hlive : live s).
+  { unfold live. destruct (state s); try discriminate; auto. }
+  split; [assumption|].
+  assert (He : (0 <? zlen (data s)) && (sil s <? zlen (data s)) = true
+               /\ eod c (mkSt (state s) (data s) (contig s) (init_count s) (sil s)
+                              (start s) (cur s + 1)) false = (s', Some t')).
+  { destruct Hlive as [Hs|Hs]; rewrite Hs in Hp; rewrite Hs;
+    destruct ((0 <? zlen (data s)) && (sil s <? zlen (data s))); try discriminate;
+    (split; [reflexivity|exact Hp]). }
+  clear Hp. destruct He as [Hc He].
+  rewrite eod_false in He.
+  match type of He with context [emits c ?Y] => set (X := Y) in * end.
+  destruct (emits c X) eqn:Hem; [|discriminate].
+  inversion He; subst; clear He.
+  unfold tok_start, tok_data; cbn [fst snd].
+  assert (Htrim : trim c X = trim c s) by reflexivity.
+  rewrite Htrim in *.
+  unfold emits in Hem. rewrite Htrim in Hem. subst X; fields.
+  split; [reflexivity|].
+  split; [lia|]. split; [lia|].
+  unfold ext_inv. split; [reflexivity|]. split; [reflexivity|]. split; [lia|].
+  destruct (drop c && (0 <? sil s)) eqn:Ed.
+  - rewrite trim_drop by (assumption || lia).
+    exists (skipn (Z.to_nat (zlen (data s) - sil s)) (data s)).
+    split; [now rewrite firstn_skipn|].
+    intros _. rewrite zlen_skipn. lia.
+  - rewrite trim_nodrop by assumption. exists []. split; [now rewrite app_nil_r|].
+    intros Hdr. zl. lia.
+Qed.
+
+End PrefixMain.
+
+Theorem C08_prefix : forall (A : Type) (c : config) (s_old : st A) (p q : list (A * bool)),
+  accepted c ->
+  exists out1 fl rest,
+    tokenize_from c s_old p = out1 ++ fl /\
+    tokenize_from c s_old (p ++ q) = out1 ++ rest /\
+    (fl = [] \/ exists t' t rest', fl = [t'] /\ rest = t :: rest' /\ shorter_version t' t).
+Proof.
+  intros A c s_old p q Hacc.
+  unfold tokenize_from.
+  set (s0 := reinit s_old).
+  set (s1 := fst (feed c s0 p)).
+  exists (snd (feed c s0 p)), (snd (run c s1 [])), (snd (run c s1 q)).
+  split; [|split].
+  - rewrite <- (app_nil_r p) at 1. apply run_feed.
+  - apply run_feed.
+  - cbn [run]. unfold iter_step.
+    destruct (post_process c (set_cur s1 (cur s1 + 1))) as [s2 o] eqn:Hp.
+    destruct o as [t'|]; [right|left; reflexivity].
+    destruct (post_process_some c Hacc s1 s2 t' Hp) as (Hlive & Hst & Hpos & Hemit & Hinv).
+    destruct (run_ext c Hacc (tok_data t') (start s1) (contig s1) Hpos Hemit q s1 Hlive Hinv)
+      as (t & rest' & Hrun & Hst' & suf & Hsuf).
+    exists t', t, rest'. cbn [snd opt_list].
+    split; [reflexivity|]. split; [assumption|].
+    unfold shorter_version. split; [congruence|]. exists suf; assumption.
+Qed.
+
+(* ------------------------------------------------------------------ *)
+(** * Non-vacuity *)
+
+(** min_length 1, max_length 5, max_continuous_silence 2, mode
+    DROP_TRAILING_SILENCE: what [validate 1 5 2 0 0 4] returns. *)
+Definition cex : config := mkConfig 1 5 2 0 0 false true.
+
+Example cex_validated : validate 1 5 2 0 0 4 = Ok cex.
+Proof. reflexivity. Qed.
+
+Example cex_accepted : accepted cex.
+Proof. unfold accepted, cex; cbn [max_length min_length max_sil init_min]; lia. Qed.
+
+(** Drop mode: the token is frame 0 alone; it is handed over on read 4, i.e.
+    while processing frame 3 = max_sil + 1 frames after its last frame, which
+    is the upper end of the second clause of [latency_ok]. *)
+Example latency_witness_drop :
+  run_idx cex (reinit init_st) [(10, true); (11, false); (12, false); (13, false); (14, false)]
+  = [(([10], 0, 0), 4)]
+  /\ 4 = tok_end ([10], 0, 0) + Z.max 0 (max_sil cex) + 2.
+Proof. vm_compute. split; reflexivity. Qed.
+
+(** A token cut at max_length is handed over on the read of its own last
+    frame (first clause), its continuation at the end-of-stream read (third
+    clause). *)
+Example latency_witness_cut :
+  run_idx cex (reinit init_st)
+    [(10, true); (11, true); (12, true); (13, true); (14, true); (15, true)]
+  = [(([10; 11; 12; 13; 14], 0, 4), 5); (([15], 5, 5), 7)].
+Proof. vm_compute. reflexivity. Qed.
+
+(** Prefix law, second alternative: cutting after one frame flushes a strictly
+    shorter version of the token the whole stream delivers. *)
+Example prefix_witness :
+  let p := [(10, true)] in
+  let q := [(11, true); (12, false); (13, false); (14, false)] in
+  tokenize_from cex init_st p = [([10], 0, 0)]
+  /\ tokenize_from cex init_st (p ++ q) = [([10; 11], 0, 1)]
+  /\ shorter_version ([10], 0, 0) ([10; 11], 0, 1).
+Proof.
+  vm_compute. split; [reflexivity|]. split; [reflexivity|].
+  split; [reflexivity|]. exists [11]; reflexivity.
+Qed.
+
+(** Prefix law in drop mode with trailing silence at the cut point: the
+    flushed version drops the silence that the full token keeps inside. *)
+Example prefix_witness_drop :
+  let p := [(10, true); (11, false)] in
+  let q := [(12, true)] in
+  tokenize_from cex init_st p = [([10], 0, 0)]
+  /\ tokenize_from cex init_st (p ++ q) = [([10; 11; 12], 0, 2)].
+Proof. vm_compute. split; reflexivity. Qed.
+
+Print Assumptions run_idx_tokens.
+Print Assumptions C08_latency.
+Print Assumptions feed_app.
+Print Assumptions run_feed.
+Print Assumptions C08_causal.
+Print Assumptions C08_prefix.
+Print Assumptions C08_once.
